@@ -3,7 +3,7 @@ import exprlib
 
 META = {
     'functions': ['qbe.c:funcexpr', 'qbe.c:convert', 'qbe.c:funcinst', 'qbe.c:mkinst', 'qbe.c:qbetype', 'qbe.c:mkintconst', 'qbe.c:mkfltconst', 'qbe.c:funcjnz',
-                  'qbe.c:funclabel', 'qbe.c:mkblock', 'expr.c:mkbinaryexpr', 'expr.c:exprconvert', 'type.c:typecommonreal'],
+                  'qbe.c:funclabel', 'qbe.c:mkblock', 'qbe.c:funcbits', 'qbe.c:funcstore', 'qbe.c:funcload', 'qbe.c:funccopy', 'qbe.c:zero', 'qbe.c:funcalloc', 'expr.c:mkbinaryexpr', 'expr.c:exprconvert', 'type.c:typecommonreal'],
     'bounds': {'select': 'operator x (left type, right type) concrete, operand values fully symbolic; emitted IL executed by an IL semantics == C value',
                'cast': 'all 14x14 conversions'},
     'stubs': ['error()/fatal() end the path', 'xmalloc never NULL', 'realloc = typed pool for instruction arrays (growth cut)'],
@@ -12,7 +12,50 @@ META = {
 }
 
 
+def mem_instances(tier, fam='mem', safety=False):
+    L = []
+    common = dict(units=['type', 'util'], overrides=['fatal', 'xmalloc'], native_units=exprlib.NATIVE, unwind=6, safety=safety,
+                  timeout=300 if tier == 'quick' else 1800, mem_gb=12)
+    edge = {1: [1, 2, 7, 8], 2: [1, 7, 8, 9, 15, 16], 4: [1, 7, 8, 15, 16, 17, 31, 32], 8: [1, 8, 31, 32, 33, 63, 64]}
+    for usz in (1, 2, 4, 8):
+        bits = usz * 8
+        if tier == 'thorough' and usz <= 2:
+            combos = [(b, w) for b in range(bits) for w in range(1, bits - b + 1)]
+        else:
+            befs = sorted(set([0, 1, 3, 7, 8, bits // 2, bits - 1]))
+            combos = sorted(set((b, w) for b in befs for w in edge[usz] if b + w <= bits) | set((bits - w, w) for w in edge[usz]))
+            if tier == 'quick':
+                combos = combos[::2] if usz >= 4 else combos
+        for (b, w) in combos:
+            for sgn in (0, 1):
+                L.append(Inst('%s.bitfield.%s%d.b%d.w%d' % (fam, 's' if sgn else 'u', bits, b, w), 'h_mem.c', {'MODE': 1, 'USZ': usz, 'SGN': sgn, 'BEFORE': b, 'WIDTH': w},
+                              family=fam + '.bitfield', unwindset=['il_run.0:20', 'il_is_stop.0:14'],
+                              bound={'unit_bytes': usz, 'signed': bool(sgn), 'before': b, 'width': w, 'value/old contents': 'symbolic'}, **common))
+    for al in (1, 2, 4, 8, 16):
+        step = min(al, 8)
+        sizes = [n for n in range(step, 33, step)]
+        if tier == 'quick':
+            sizes = [n for n in sizes if n <= 4 * step or n in (24, 32)]
+        for n in sizes:
+            L.append(Inst('%s.copy.align%d.size%d' % (fam, al, n), 'h_mem.c', {'MODE': 2, 'ALIGN': al, 'SIZE': n}, family=fam + '.copy',
+                          unwindset=['il_run.0:%d' % (4 * n // step + 6), 'il_is_stop.0:14', 'main.0:50', 'main.1:50', 'main.2:50', 'main.3:50', 'funccopy.0:%d' % (n // step + 2)],
+                          bound={'align': al, 'size': n, 'contents': 'symbolic'}, **common))
+        ends = range(0, 9) if tier == 'quick' else range(0, 17)
+        for e in ends:
+            for o in range(0, e + 1):
+                if tier == 'quick' and al in (2, 16) and (o + e) % 2:
+                    continue
+                L.append(Inst('%s.zero.align%d.o%d.e%d' % (fam, al, o, e), 'h_mem.c', {'MODE': 3, 'ALIGN': al, 'OFF': o, 'END': e}, family=fam + '.zero',
+                              unwindset=['il_run.0:%d' % (2 * (e - o) + 6), 'il_is_stop.0:14', 'main.0:50', 'main.1:50', 'main.2:50', 'zero.0:%d' % (e - o + 8)],
+                              bound={'align': al, 'gap': [o, e], 'previous contents': 'symbolic'}, **common))
+    for al in (1, 2, 4, 8, 16, 32, 64):
+        L.append(Inst('%s.alloc.align%d' % (fam, al), 'h_mem.c', {'MODE': 4, 'ALIGN': al}, family=fam + '.alloc', unwindset=['il_run.0:10', 'il_is_stop.0:14'], backends=['sat', 'z3'],
+                      bound={'align': al, 'size': 'symbolic', 'stack address': 'symbolic'}, **common))
+    return L
+
+
 def instances(build, tier, seed):
     L = exprlib.expr_instances(tier, seed, 'ONLY_RT', 'select')
     L += exprlib.cast_instances(tier, seed, 'ONLY_RT', 'select')
+    L += mem_instances(tier)
     return L
